@@ -12,7 +12,7 @@ Lemma cov_split s p : agg s = None -> covered s p ->
   cov_task s p \/ (exists f', snd p = Pess f' /\ In (fst p) (flags s) /\ f' <= N.max (fu s) (cmaxc s) /\ pess s = true).
 Proof.
   intros Ha [[(B1 & B2 & B3) Hc]|Ht]; auto. right.
-  destruct (snd p) as [f'|]; [|tauto]. destruct Hc as [[H1 H2]|(e & (a & Ha' & _) & _)]; [|congruence].
+  destruct (snd p) as [f'|]; [|tauto]. destruct Hc as [[H1 H2]|(a & e & Ha' & _ & _)]; [|congruence].
   exists f'. auto.
 Qed.
 
@@ -26,27 +26,36 @@ Proof.
   - unfold cnt_ok, agg_len in *. rewrite Ha', Hf, Hc. rewrite Ha in HC. auto.
 Qed.
 
-Lemma flags_in_mutations s k : In k (flags s) -> In k (mutations s).
-Proof. intros H. unfold mutations. apply dedup_sort_In. apply in_or_app; auto. Qed.
+Lemma flags_in_mutations s unn k : In k (flags s) -> In k (mutations unn s).
+Proof.
+  intros H. unfold mutations. apply dedup_sort_In. apply filter_In. split; [apply in_or_app; auto|].
+  unfold keep_mut. destruct (findk k (written s)) as [b|] eqn:Ef; auto.
+  apply orb_true_iff. right. apply memk_In; auto.
+Qed.
 
 Lemma Inv_commit_body o s : Inv s -> agg s = None -> Inv (commit_body o s).
 Proof.
   intros HInv Ha. pose proof HInv as (HI & HL & HC). unfold commit_body.
-  pose proof (flags_in_mutations s) as Hfm.
-  destruct (mutations s) as [|m0 ms] eqn:Em.
+  pose proof (flags_in_mutations s (co_unnecessary o)) as Hfm.
+  destruct (mutations (co_unnecessary o) s) as [|m0 ms] eqn:Em.
   - apply (Inv_of_tasks s); auto. intros p Hp. simpl in Hp.
     destruct (cov_split s p Ha (HI p Hp)) as [Ht|(f' & _ & Hin & _)]; auto.
     apply Hfm in Hin. inversion Hin.
-  - rewrite <- Em in *. clear Em m0 ms. set (muts := mutations s) in *.
+  - rewrite <- Em in *. clear Em m0 ms. set (muts := mutations (co_unnecessary o) s) in *.
     destruct (co_mode o); destruct (co_res o); simpl.
     (* 2PC *)
-    + apply (Inv_of_tasks s); auto. intros p Hp. simpl in Hp.
-      apply run_task_In in Hp. destruct Hp as [Hp _]. apply fold_put_prew_In in Hp.
-      destruct Hp as [[H1 H2]|[H1 H2]].
-      * apply cov_task_new. destruct p as [k l]; simpl in *. subst l. simpl. apply memk_In; auto.
-      * destruct (cov_split s p Ha (HI p H1)) as [Ht|(f' & _ & Hin & _)].
-        -- apply cov_task_add. destruct Ht as (t & T1 & T2). exists t; auto.
-        -- exfalso. apply H2. apply Hfm. auto.
+    + assert (Hc : forall p, In p (run_task (TCommitSec (co_sync o)) (fold_right put_prew (store s) muts)) ->
+                   cov_task (add_task (TCommitSec muts) (set_store (run_task (TCommitSec (co_sync o)) (fold_right put_prew (store s) muts))
+                                                            (set_committer true (set_valid false s)))) p).
+      { intros p Hp. apply run_task_In in Hp. destruct Hp as [Hp _]. apply fold_put_prew_In in Hp.
+        destruct Hp as [[H1 H2]|[H1 H2]].
+        * apply cov_task_new. destruct p as [k l]; simpl in *. subst l. simpl. apply memk_In; auto.
+        * destruct (cov_split s p Ha (HI p H1)) as [Ht|(f' & _ & Hin & _)].
+          -- apply cov_task_add. destruct Ht as (t & T1 & T2). exists t; auto.
+          -- exfalso. apply H2. apply Hfm. auto. }
+      destruct (primary_in muts s).
+      * apply (Inv_of_tasks s); auto.
+      * apply (Inv_of_tasks s); auto. intros p Hp. simpl in Hp. apply cov_task_add. apply Hc. exact Hp.
     + apply (Inv_of_tasks s); auto. intros p Hp. simpl in Hp. apply fold_put_prew_In in Hp.
       destruct Hp as [[H1 H2]|[H1 H2]].
       * apply cov_task_new. simpl. apply memk_In. apply filter_In in H2. destruct H2 as [_ H2]. apply memk_In; auto.
@@ -102,6 +111,17 @@ Proof.
         destruct Ht as (t & T1 & T2). exists t; auto.
 Qed.
 
+Lemma agg_cancel_flags s : flags (agg_cancel s) = flags s.
+Proof.
+  unfold agg_cancel. destruct (agg s) as [a|]; auto. unfold cleanup_redundant.
+  destruct (prev a); destruct (aprim a || alastprim a); destruct (cur a); reflexivity.
+Qed.
+Lemma agg_cancel_written s : written (agg_cancel s) = written s.
+Proof.
+  unfold agg_cancel. destruct (agg s) as [a|]; auto. unfold cleanup_redundant.
+  destruct (prev a); destruct (aprim a || alastprim a); destruct (cur a); reflexivity.
+Qed.
+
 Lemma Inv_commit o s : Inv s -> pending s = false -> Inv (commit o s).
 Proof.
   intros HInv Hp. unfold commit. destruct (valid s) eqn:Ev; simpl; auto. rewrite Hp.
@@ -110,6 +130,6 @@ Qed.
 
 Lemma valid_commit_body o s : valid (commit_body o s) = false.
 Proof.
-  unfold commit_body. destruct (mutations s); auto.
-  destruct (co_mode o); destruct (co_res o); simpl; auto; destruct (pess s); auto.
+  unfold commit_body. destruct (mutations (co_unnecessary o) s); auto.
+  destruct (co_mode o); destruct (co_res o); simpl; auto; try (destruct (pess s); auto); destruct (primary_in _ _); auto.
 Qed.
